@@ -70,6 +70,11 @@ func rulesC11(c *Ctx, r *Report) {
 	rulesFastaAutomaton(c, r)
 	rulesNewickTokenizer(c, r)
 	rulesNewickParser(c, r)
+	rulesSamParser(c, r)
+	rulesMakeThenAppend(c, r, "formats/fasta", "formats/fastq", "formats/sam", "formats/bed", "formats/newick", "formats/smtext")
+	for _, rel := range []string{"formats/fasta", "formats/fastq", "formats/sam", "formats/bed", "formats/newick"} {
+		rulesYDPkg(c, r, rel)
+	}
 }
 
 // rulesPanics (PANIC).
